@@ -12,6 +12,7 @@ string values that conform to a PVL specification.
 # top level of this library.
 
 import datetime
+import math
 import re
 import textwrap
 
@@ -434,6 +435,14 @@ class PVLEncoder(object):
             else:
                 return self.grammar.false_keyword
         elif isinstance(value, self.numeric_types):
+            if (
+                isinstance(value, float) and not math.isfinite(value)
+            ) or (isinstance(value, Decimal) and not value.is_finite()):
+                # "inf" and "nan" are not PVL numbers: every parser
+                # would read them back as unquoted strings.
+                raise ValueError(
+                    f"PVL has no notation for the non-finite number {value}."
+                )
             return str(value)
         elif isinstance(value, str):
             return self.encode_string(value)
